@@ -604,3 +604,108 @@ func RegistryStorm(p *sut.Proc, pairs, rounds int) (created int, findings []*che
 	}
 	return
 }
+
+// G13: the frame worker and a departing member deadlock on the member's full
+// request queue. X has a pose update pending and starts leaving (session
+// switch); its main loop is held at the entry of leaveSession (standing for a
+// main loop blocked in the departure's relays towards a stalled peer, which
+// the free-running stall+leave trial of C08 reaches without gates); X's
+// client writes 300 more requests, which fill X's queue (256); a frame tick
+// then blocks pushing X's pending update into that queue while holding the
+// frame read lock; released, X needs the frame write lock to stop its frame
+// handling. Deterministic reproducer of the listed finding
+// liveness/wedged/stall/leave-with-full-queue-while-peer-stalls.
+func G13FrameWorkerVsLeaver(p *sut.Proc) *Result {
+	return run("G13 frame worker x departing member with a full queue", func(r *Result) {
+		const site = "websocket.RealtimeHandler.leaveSession"
+		w := scen.MustDial(p, "")
+		defer w.Close()
+		_, _, err := w.Join("")
+		must(err)
+		x := scen.MustDial(p, "")
+		defer x.Close()
+		_, _, err = x.Join(w.SID)
+		must(err)
+		xe, err := x.AddEntity(false, 1)
+		must(err)
+		we, err := w.AddEntity(false, 2)
+		must(err)
+		w.Barrier()
+		x.Barrier()
+		rt(p, "op=hold&site="+site)
+		defer p.RT("op=reset")
+		joinID := x.NextReqID()
+		must(x.Send(&hagallpb.ParticipantJoinRequest{Type: d.TJoinReq, Timestamp: d.NewTag(), RequestId: joinID}))
+		if !gateWait(p, site, 1) {
+			r.Inconclusive = "G13: the leaver never reached leaveSession"
+			return
+		}
+		r.GateReached = true
+		x.Timeout = 3 * time.Second
+		// 250 requests (the queue holds 256), then the pose update (stored as
+		// pending by the receiver), then enough requests to fill the queue
+		for i := 0; i < 310; i++ {
+			if i == 250 {
+				x.Pose(xe, 99)
+			}
+			if err := x.Send(&hagallpb.Request{Type: d.TPingReq, Timestamp: d.NewTag(), RequestId: x.NextReqID()}); err != nil {
+				break
+			}
+		}
+		// a few frame ticks: the worker reaches X's handler and finds the queue full
+		time.Sleep(60 * time.Millisecond)
+		rt(p, "op=release&site="+site)
+		answered := false
+		x.Timeout = 6 * time.Second
+		x.WaitFor(func(e *d.Event) bool {
+			if m, ok := e.M.(*hagallpb.ParticipantJoinResponse); ok && m.RequestId == joinID {
+				answered = true
+				return true
+			}
+			return false
+		})
+		r.Signature = fmt.Sprintf("leaver held in leaveSession < queue full < frame tick blocked on the queue < leaver released: switch answered=%v", answered)
+		d1, e1 := p.Goroutines()
+		time.Sleep(500 * time.Millisecond)
+		d2, e2 := p.Goroutines()
+		if !answered && e1 == nil && e2 == nil {
+			stuck := stuckIn(d1, d2)
+			if len(stuck) >= 2 {
+				r.Findings = append(r.Findings, &check.Finding{Props: []string{"C08", "C09"}, Clause: "liveness/wedged", Trigger: "stall/leave-with-full-queue-while-peer-stalls", Engine: "E2 gated interleaving",
+					Detail: "a member that leaves with a pending pose update and a full request queue deadlocks against the session's frame worker: its session switch is never answered and the session relays no pose update any more; goroutines parked across two dumps:\n" + strings.Join(stuck, "\n---\n")})
+			} else {
+				r.Inconclusive = "G13: the switch was not answered but no pair of parked goroutines was found"
+			}
+		}
+		_ = we
+	})
+}
+
+// stuckIn returns goroutines blocked at the same hagall place in both dumps.
+func stuckIn(d1, d2 string) []string {
+	parse := func(dump string) map[string]string {
+		out := map[string]string{}
+		for _, g := range strings.Split(dump, "\n\n") {
+			head, _, _ := strings.Cut(g, "\n")
+			if !strings.HasPrefix(head, "goroutine ") || !(strings.Contains(head, "[chan send") || strings.Contains(head, "RWMutex.Lock") || strings.Contains(head, "Mutex.Lock")) {
+				continue
+			}
+			if !strings.Contains(g, "aukilabs/hagall") || strings.Contains(g, "verifrt.P") {
+				continue
+			}
+			out[strings.Fields(head)[1]] = g
+		}
+		return out
+	}
+	a, b := parse(d1), parse(d2)
+	var out []string
+	for id, g := range a {
+		if _, ok := b[id]; ok {
+			if len(g) > 1200 {
+				g = g[:1200] + "…"
+			}
+			out = append(out, g)
+		}
+	}
+	return out
+}
